@@ -521,7 +521,10 @@ func (broker *baseBroker) readBody(ctx context.Context) (
 				body = &bytes.Buffer{}
 
 				if bodyLength > 0 && !isEOF {
-					body = io.NewSectionReader(readerAt{broker.Reader}, 0, int64(bodyLength))
+					body = &fixedLengthBodyReader{
+						Reader: io.NewSectionReader(readerAt{broker.Reader}, 0, int64(bodyLength)),
+						left:   bodyLength,
+					}
 				}
 			}
 		case StreamBodyType:
@@ -582,6 +585,30 @@ type readerAt struct {
 
 func (r readerAt) ReadAt(p []byte, _ int64) (int, error) {
 	n, err := r.Read(p)
+
+	return n, err //nolint:wrapcheck //...
+}
+
+// fixedLengthBodyReader reports io.ErrUnexpectedEOF instead of io.EOF when the
+// stream ends before the announced body length was read.
+type fixedLengthBodyReader struct {
+	io.Reader
+	left uint64
+}
+
+func (r *fixedLengthBodyReader) Read(p []byte) (int, error) {
+	n, err := r.Reader.Read(p)
+
+	switch {
+	case uint64(n) >= r.left:
+		r.left = 0
+	default:
+		r.left -= uint64(n)
+	}
+
+	if r.left > 0 && errors.Is(err, io.EOF) {
+		return n, io.ErrUnexpectedEOF
+	}
 
 	return n, err //nolint:wrapcheck //...
 }
